@@ -3,6 +3,7 @@ package main
 import (
 	"bytes"
 	"fmt"
+	"math"
 	"math/rand"
 	"strings"
 	"unicode/utf8"
@@ -102,6 +103,29 @@ func suiteC04(c *Ctx) []Suite {
 			}
 			return out
 		}},
+		{Name: "sml/longest-ascii-item", Gen: func(c *Ctx) []Case {
+			// an ASCII item of 16,777,214 and of 16,777,215 characters (the longest there is) prints
+			// and re-parses to itself (judged on the real code: the model driver is not fed 16 MB lines)
+			var out []Case
+			for _, n := range []int{16777214, 16777215} {
+				res := ""
+				safely(func() {
+					it := ast.NewASCIINode(strings.Repeat("m", n))
+					msg := ast.NewDataMessage("Long", 1, 1, 1, "H->E", ast.NewListNode(ast.NewUintNode(1, 3), it))
+					r := parseSML(msg.String())
+					switch {
+					case r.panicked:
+						res = "panic"
+					case len(r.errs) != 0 || len(r.msgs) != 1:
+						res = fmt.Sprintf("the printed form of a message with an ASCII item of %d characters is refused: %v", n, r.errs)
+					case len(completedBytes(r.msgs[0])) != len(completedBytes(msg)):
+						res = fmt.Sprintf("the re-parsed message with an ASCII item of %d characters encodes to %d bytes instead of %d", n, len(completedBytes(r.msgs[0])), len(completedBytes(msg)))
+					}
+				})
+				out = append(out, Case{Detail: fmt.Sprintf("print -> parse of an ASCII item of %d characters", n), Oracle: res, Nontrivial: true, Tags: []string{"longest-ascii"}})
+			}
+			return out
+		}},
 		{Name: "sml/ascii-every-character", Gen: func(c *Ctx) []Case {
 			var out []Case
 			for ch := 0; ch < 128; ch++ {
@@ -164,6 +188,26 @@ func suiteC05(c *Ctx) []Suite {
 			var out []Case
 			for i := 0; i < c.N(2500); i++ {
 				item := smlTemplate(c.R, 0.1, false)
+				if i%30 == 11 {
+					// the same spellings in an F4 and in an F8 item of one message, in either order:
+					// each denotes the nearest value of its own width
+					lits := [][2]uint64{}
+					for _, f := range []float64{0.1, 0.3, 16777217, 1e-3, 3.3, 2.7, 1e10} {
+						lits = append(lits, [2]uint64{uint64(math.Float32bits(float32(f))), math.Float64bits(f)})
+					}
+					c.R.Shuffle(len(lits), func(a, b int) { lits[a], lits[b] = lits[b], lits[a] })
+					lits = lits[:2+c.R.Intn(3)]
+					f4 := &Node{Kind: "F", W: 4}
+					f8 := &Node{Kind: "F", W: 8}
+					for _, l := range lits {
+						f4.Slots = append(f4.Slots, Slot{Bits: l[0]})
+						f8.Slots = append(f8.Slots, Slot{Bits: l[1]})
+					}
+					item = &Node{Kind: "L", Slots: []Slot{{Child: f4}, {Child: f8}}}
+					if c.R.Intn(2) == 0 {
+						item = &Node{Kind: "L", Slots: []Slot{{Child: f8}, {Child: f4}}}
+					}
+				}
 				depth := 0
 				if i%25 == 7 && item.Kind != "E" {
 					// the literals stand deep inside nested lists, with siblings on the way down
@@ -446,6 +490,9 @@ func suiteC06(c *Ctx) []Suite {
 			var out []Case
 			for i, t := range texts {
 				r := results[i]
+				if r.show == "SKIPPED" {
+					continue
+				}
 				cs := Case{Op: smlOp(t), Impl: r.show, Decisive: true, Nontrivial: len(t) > 3, Tags: []string{"outcome:" + r.class}}.fields("=n err warn")
 				if strings.Count(t, "<") > 300 {
 					// the model's printer is cubic in the nesting depth: deep inputs are judged by the
@@ -789,6 +836,33 @@ func suiteC15(c *Ctx) []Suite {
 		}},
 		{Name: "size/huge-and-overflowing-bounds", Gen: func(c *Ctx) []Case {
 			var out []Case
+			// the longest ASCII literal there is, inside and outside its declared bounds (judged on
+			// the real code)
+			for _, d := range []struct {
+				decl string
+				ok   bool
+			}{{"[16777215]", true}, {"[1..16777215]", true}, {"[1..]", true}, {"[..16777214]", false}, {"[16777216..]", false}} {
+				res := ""
+				safely(func() {
+					text := "S1F1 W H->E\n<A" + d.decl + " \"" + strings.Repeat("z", 16777215) + "\">\n."
+					r := parseSML(text)
+					sizeAt := 0
+					for _, e := range r.errs {
+						if strings.Contains(e, "data item size overflow") && strings.HasPrefix(e, "Ln 2, Col 3:") {
+							sizeAt++
+						}
+					}
+					switch {
+					case r.panicked:
+						res = "panic"
+					case d.ok && (len(r.errs) != 0 || len(r.msgs) != 1):
+						res = fmt.Sprintf("an ASCII literal of 16,777,215 characters declared %s is refused: %v", d.decl, r.errs)
+					case !d.ok && (sizeAt != 1 || len(r.errs) != 1 || len(r.msgs) != 0):
+						res = fmt.Sprintf("an ASCII literal of 16,777,215 characters declared %s: errors %v", d.decl, r.errs)
+					}
+				})
+				out = append(out, Case{Detail: "longest ASCII literal declared " + d.decl, Oracle: res, Nontrivial: true, Tags: []string{"longest-literal"}})
+			}
 			huge := []string{"16777215", "16777216", "4294967296", "9223372036854775807", "9223372036854775808", "99999999999999999999", "000000000000000000002"}
 			for _, h := range huge {
 				for _, form := range []string{"[%s]", "[%s..]", "[..%s]", "[1..%s]", "[%s..%s]", "[ %s ]", "[\r\n%s\r\n]"} {
@@ -1185,6 +1259,15 @@ func suiteC19(c *Ctx) []Suite {
 					// it, the concatenation has to cope with it too
 					if j > 0 && c.R.Intn(5) == 0 {
 						cand := []string{"\ufeff", "\ufeff\n", "\u00a0", "\v", "\f", "\u2028", "// first line\n", "\r\n\t", "\x00"}[c.R.Intn(9)] + t
+						if rc := parseSML(cand); !rc.panicked && len(rc.errs) == 0 {
+							t = cand
+						}
+					}
+					// an earlier text may end with whatever the parser accepts at the end of a text
+					// (an end-of-file mark, an opened block comment, a stray control byte): if the
+					// text is accepted with it, what follows it is still read
+					if j < k-1 && c.R.Intn(6) == 0 {
+						cand := t + []string{"\n/* end of the first file\n", "\x1a", "\x1a\n", "\n\x04", "\n#eof\n", "\n;\n", "\n\x00", "\n---\n", "\n*/\n", "\x0c"}[c.R.Intn(10)]
 						if rc := parseSML(cand); !rc.panicked && len(rc.errs) == 0 {
 							t = cand
 						}
